@@ -43,7 +43,7 @@ class Prop:
     rule = ("plain and typed trees: every ordered forest with <= N nodes (N=4 quick, 5 thorough) x label patterns with repeats (clones at "
             "every relative position incl. below a sibling of the first occurrence and nested below it; clones of differing kind) x explicit "
             "ids x str/unicode/value-hashed/identity-hashed/int/tuple/dataclass/DictWrapper data, plus seeded random trees up to 12 nodes.  "
-            "One case = one tree x one (key_map, value_map) in {default, off, custom}^2 (all 9 per tree in the thorough tier) x mapper "
+            "One case = one tree x one (key_map, value_map) in {default, off, custom}^2 (thorough tier: three pairs per tree, all nine for every fifth tree) x mapper "
             "style {none, callback, derived class}; inside every case REAL files are written and read through all transports: StringIO, "
             "open text file, str path and Path with compression in {False, True, STORED, DEFLATED, BZIP2, LZMA}; the written text must be "
             "the same for all transports (it is the model's save_doc), every loaded tree must be iso to the source (independent Python "
@@ -76,12 +76,14 @@ class Prop:
         for td in self.tree_descs(tier, rng):
             only_str = all(u.startswith("s:") for u in td["univ"])
             ms = rng.choice(["cb", "derived"] + (["none", "none"] if only_str else []))
-            meta = rng.choice([None, {"foo": "bar"}, {"n": 1, "l": [1, "x", None, True], "d": {"a": {}}, "\u00fc": "\u20ac"}])
+            meta = rng.choice([None, {"foo": "bar"}, {"str": "s", "t": [1], "kind": {"data_id": 0}}, {"n": 1, "l": [1, "x", None, True], "d": {"a": {}}, "\u00fc": "\u20ac"}])
+            i += 1
             if tier == "quick":
-                i += 1
                 sel = [combos[i % 9]]
+            elif i % 5 == 0:
+                sel = combos                                   # all nine (key_map, value_map) pairs
             else:
-                sel = combos
+                sel = [combos[(i + j * 4) % 9] for j in range(3)]   # three of them, rotating
             for k, v in sel:
                 yield dict(td, km=k, vm=v, mapper=ms, meta=meta)
 
